@@ -319,7 +319,7 @@ pub fn beatmap_projection(id: usize, bytes: &[u8]) -> Result<String, String> {
 }
 
 /// which decoders the model entry `dec` currently covers
-pub const MODEL_DECODERS: &[usize] = &[0, 1, 2, 3, 4, 5, 6];
+pub const MODEL_DECODERS: &[usize] = &[0, 1, 2, 3, 4, 5, 6, 7, 8];
 
 /// text whose byte layer is trivial (valid UTF-8, no BOM, no code unit issues):
 /// the byte->text layer is C10/C08's business
